@@ -17,6 +17,7 @@ import CqlVerif.Drv.Route
 import CqlVerif.Drv.Codec
 import CqlVerif.Drv.Bytes
 import CqlVerif.Drv.Ring
+import CqlVerif.Drv.Hostile
 open CqlVerif.Drv
 
 def dispatch (stream op real : String) : Verdict :=
@@ -40,6 +41,7 @@ def dispatch (stream op real : String) : Verdict :=
   | "codec" => CodecStream.handle op real
   | "bytes" => BytesStream.handle op real
   | "ring" => RingStream.handle op real
+  | "hostile" => HostileStream.handle op real
   | _ => { kind := "diff", detail := s!"unknown stream {stream}" }
 
 partial def loop (h : IO.FS.Stream) (out : IO.FS.Stream) : IO Unit := do
